@@ -10,6 +10,11 @@ written from the property statement.  Besides the selected/ordered `_uid` sequen
     before the run still holds after it;
   * seed-determinism for Shuffle / Riffle / Reservoir: a fresh instance and the re-used instance give the same
     sequence again.
+Dense and sparse contexts are held by a list / dict or by one of coba's own Dense / Sparse classes (HashableDense/-Sparse,
+LazyDense/-Sparse loaded or still lazy, header-mapped sparse ARFF rows, label-dropped reader rows DropOne/DropSparse, a
+mappingproxy): the statement quantifies over dense and sparse contexts, not over their Python class, so all oracles apply
+unchanged and a failure that disappears with list / dict contexts is reported as `<filter>/input=context-class:<class>/mode=...`.
+One Cache instance is also read by several readers side by side and again after a read during which its source raised.
 The interactions of one environment do not all have to be assembled the same way: in about half of the environments
 some (or all) interactions carry the very same items in a different key insertion order (a second code path, a log
 read back with another field order, dict.update, a filter that pops and re-adds a key), and some environments hold
@@ -31,12 +36,14 @@ import random as _random
 ID    = "C09"
 LEVEL = "exploration"
 RULE  = ("one case = one generated environment (length 0..60; simulated/logged/grounded; None/scalar/dense/tuple/"
-         "sparse contexts; list/DiscreteReward/BinaryReward rewards; unique _uid per interaction; all interactions with "
+         "sparse contexts, dense and sparse ones held by a list/dict or by one of coba's own Dense/Sparse classes (Hashable*, "
+         "Lazy* loaded or not, header-mapped, label-dropped reader rows, mappingproxy); list/DiscreteReward/BinaryReward rewards; unique _uid per interaction; all interactions with "
          "the constructor's key order / some assembled in one other key order / each in its own key order; Interaction "
          "subclasses or plain dicts) x one filter "
          "configuration (Shuffle, Riffle, Sort, Take, Slice, Reservoir, Where, Cache, Chunk, Params, Identity, "
          "Batch+Unbatch) run through every access path (pipes class, environments.filters class, Environments "
-         "shortcut raw + finalized) and two input forms (list / one-shot iterator); distinct & non-trivial = "
+         "shortcut raw + finalized) and two input forms (list / one-shot iterator); one Cache instance is read once / twice / "
+         "after an abandoned read / by 2-3 interleaved readers / after a read whose source raised; distinct & non-trivial = "
          "distinct (filter, parameter class, length class, interaction kind, context kind) with length >= 2.  Every "
          "fifth case is a COLLECTION: one Environments.<f>() shortcut call over 2-3 different environments (disjoint "
          "_uid ranges, same or mixed schema), the resulting environments read in 2-3 rounds (permuted sequential "
@@ -44,6 +51,17 @@ RULE  = ("one case = one generated environment (length 0..60; simulated/logged/g
          "distinct = (filter, parameter class, #environments, round modes, mixed schema, multi-seed)")
 PLAN  = {"quick":    {"shards": 16, "cases": 30000,   "timeout": 600,  "budget_s": 80},
          "thorough": {"shards": 16, "cases": 1250000, "timeout": 3000, "budget_s": 800}}
+# the CLASS of a dense / sparse context (not part of its content either: coba's Dense and Sparse are ABCs, and the rows its
+# own readers hand out are lazily decoded Dense_/Sparse_ objects, not lists and dicts):
+#   cwrap   None = list / dict;  HashableDense / HashableSparse (what Finalize makes);  LazyDense / LazySparse already
+#           loaded or still holding their loader (`-lazy`);  DropOne / DropSparse = a reader row whose label column was
+#           dropped, as SupervisedSimulation makes them (the wrapped row holds one item more than the context);
+#           LazySparse-headers = a (loaded) sparse ARFF row: held under column numbers, presented under the header names;
+#           mappingproxy = any other abc.Mapping
+_CWRAP = {"dense":  [None, None, None, "HashableDense", "LazyDense", "LazyDense-lazy", "DropOne"],
+          "sparse": [None, None, None, "HashableSparse", "LazySparse", "LazySparse-lazy", "LazySparse-headers", "DropSparse", "mappingproxy"]}
+_CWRAP_ALL = sorted({w for ws in _CWRAP.values() for w in ws if w})
+
 FILTERS = ["Shuffle", "Riffle", "Sort", "Take", "Slice", "Reservoir", "Where", "Cache", "Chunk", "Params", "Identity", "BatchUnbatch"]
 REQUIRED = [f"oracle.{f}" for f in FILTERS] + [
     "oracle.content-preserved", "oracle.input-snapshot", "oracle.determinism", "oracle.seed.adversarial",
@@ -53,11 +71,16 @@ REQUIRED = [f"oracle.{f}" for f in FILTERS] + [
     [f"oracle.{f}.mixed-key-order" for f in FILTERS] + \
     [f"oracle.collection.{f}" for f in FILTERS] + [
     "collection.first-read", "collection.after-sibling", "collection.re-read", "collection.interleaved",
-    "collection.round.partial", "collection.raw", "collection.finalized", "collection.mixed-schema"]
+    "collection.round.partial", "collection.raw", "collection.finalized", "collection.mixed-schema"] + \
+    [f"input.context-class.{w}" for w in _CWRAP_ALL] + [f"oracle.Where.n_features.context-class.{w}" for w in _CWRAP_ALL] + [
+    "oracle.Sort.context-class", "oracle.Where.n_features.string-scalar",
+    "oracle.Cache.reads.twice", "oracle.Cache.reads.partial", "oracle.Cache.reads.interleaved", "oracle.Cache.reads.failed"]
 ASSUMPTIONS = [
     "which permutation / which sample a seed yields is not asserted, only that it is a permutation (resp. min(n,N) distinct members) of the input and reproducible; seed=None is excluded",
     "Sort: keys exist in every dense context; sparse contexts take 0 for an absent key; sparse contexts without keys, and scalar contexts, only have to come out as a permutation (order unspecified); sort-key columns hold one orderable type; None/scalar contexts are sorted without keys only",
-    "Where: the feature count of an environment is asserted only when every context has the same number of features (None = 0, scalar number = 1); n_actions only on interactions that carry 'actions'; an empty environment yields nothing whatever the bounds",
+    "Where: the feature count of an environment is asserted only when every context has the same number of features (None = 0; a scalar -- number or string -- = 1: 'a value (a single feature)' in coba's own description of contexts; dense / sparse = number of values, whatever Dense / Sparse class holds them); n_actions only on interactions that carry 'actions'; an empty environment yields nothing whatever the bounds",
+    "the class that holds a dense / sparse context (list, tuple, HashableDense, LazyDense, DropOne / dict, HashableSparse, LazySparse with or without header names, DropSparse, any other Mapping; lazily decoded rows loaded or not) is not content: every context of one environment is held the same way, the filters must do what the statement says for all of them, and two contexts with the same values in the same kind of container are the same content",
+    "Cache: one instance may be read once, twice, again after an abandoned read, by two or three readers side by side (any interleaving of single-item steps; every reader is drained in the end), and again after a read during which its SOURCE raised (the failing read itself is not judged: its input is not a finite sequence); every read that is given the intact finite sequence and completes must be the identity on it",
     "every interaction of one environment has the same key set and the same value kinds (coba decides per environment from its first interaction); "
     "the ORDER in which an interaction's keys were inserted, and whether it is an Interaction subclass or a plain dict, is not content: "
     "interactions of one environment may differ in it ('the only assumption made by Coba is that interactions are a dict') and every filter must still do what the statement says",
@@ -119,6 +142,7 @@ def gen_env(rng, like=None, n=None, uid_base=100):
         sc["na_const"] = rng.randint(1, 4)
         sc["korder"] = rng.choice(["same", "same", "same", "some", "some", "each"])
         sc["plain"] = rng.random() < .15
+        sc["cwrap"] = rng.choice(_CWRAP.get(sc["ctx"], [None]))
     korder = sc.get("korder", "same"); alt_order = rng.randrange(1, 10**6); p_alt = rng.choice([.15, .35, .5, .85])
     kind, ctx, rwd, akind, const_actions, has_actions, has_prob, has_tag, d, coltypes, skeys, uniform_sparse, scalar_type, na_const = (sc[k] for k in _SCHEMA_KEYS)
     def val(t):
@@ -225,16 +249,22 @@ def gen_filter(rng, env, name=None):
             return {"form": "tuple", "v": [hi + 1, lo]}       # empty range: nothing can satisfy it
         ni = rng_arg(n) if rng.random() < .7 else None
         na = rng_arg(2) if env["has_actions"] and rng.random() < .5 else None
-        nf0 = 0
-        if env["rows"]:
-            c = env["rows"][0]["c"]
-            nf0 = _nfeat(c) if _nfeat(c) is not None else 1
-        nf = rng_arg(nf0) if rng.random() < .4 else None
+        nf0 = _nfeat(env["rows"][0]["c"]) if env["rows"] else 0
+        nf = rng_arg(nf0) if rng.random() < .5 else None
         if ni is None and na is None and nf is None: ni = rng_arg(n)
         f.update(n_interactions=ni, n_actions=na, n_features=nf)
     elif name == "Cache":
-        f.update(n_slice=rng.choice([1, 2, 3, 25, max(n, 1), n + 1]), reads=rng.choice(["once", "twice", "partial"]),
-                 k=rng.randint(0, max(n, 1)))
+        # one Cache instance is read the ways one environment can be read: once / twice / again after an abandoned read /
+        # by two or three readers side by side (`schedule` = whose turn it is to take one item; then every reader is drained)
+        # / again after a read that FAILED because the source raised while item `fail_at` was fetched (`source`: a generator,
+        # which is dead afterwards, or an iterator that would carry on with the next item)
+        reads = rng.choice(["once", "twice", "partial", "interleaved", "interleaved", "failed", "failed"])
+        f.update(n_slice=rng.choice([None, 1, 2, 3, 25, max(n, 1), n + 1]), reads=reads, k=rng.randint(0, max(n, 1)))
+        if reads == "interleaved":
+            f["readers"] = rng.choice([2, 2, 3])
+            f["schedule"] = [rng.randrange(f["readers"]) for _ in range(rng.randint(1, 2 * n + 2))]
+        if reads == "failed":
+            f.update(fail_at=rng.randint(0, max(n - 1, 0)), source=rng.choice(["generator", "iterator"]), after=rng.choice([1, 2]))
     elif name == "Chunk":
         f.update(cache=rng.random() < .5)
     elif name == "Params":
@@ -292,13 +322,35 @@ def _dec_ctx(c):
 
 def _dec_action(a): return tuple(a) if isinstance(a, list) else a
 
+def _wrap_ctx(c, how):
+    """the same context held by another of coba's Dense / Sparse classes (how = schema['cwrap'])"""
+    if not how or not isinstance(c, (list, dict)): return c
+    from coba.primitives import HashableDense, HashableSparse
+    from coba.pipes.rows import LazyDense, LazySparse, DropOne, DropSparse
+    if isinstance(c, list):
+        if how == "HashableDense":  return HashableDense(c)
+        if how == "LazyDense":      return LazyDense(c)
+        if how == "LazyDense-lazy": return LazyDense(lambda: c)
+        if how == "DropOne":        full = c + ["label"]; return DropOne(LazyDense(lambda: full), len(c))
+    else:
+        if how == "HashableSparse":  return HashableSparse(c)
+        if how == "LazySparse":      return LazySparse(c)
+        if how == "LazySparse-lazy": return LazySparse(lambda: c)
+        if how == "LazySparse-headers":
+            cols = {k: j for j, k in enumerate(["a", "b", "c", "d", "zz"])}
+            raw = {cols[k]: v for k, v in c.items()}
+            return LazySparse(raw, {}, set(), cols, {j: k for k, j in cols.items()})
+        if how == "DropSparse":      full = dict(c, __label__="label"); return DropSparse(LazySparse(lambda: full), {"__label__"})
+        if how == "mappingproxy":    import types; return types.MappingProxyType(c)
+    raise ValueError(how)
+
 def build_env(env):
     from coba.primitives import SimulatedInteraction, LoggedInteraction, GroundedInteraction, DiscreteReward, BinaryReward
     out = []
     for row in env["rows"]:
         extra = {"_uid": row["u"]}
         if "tag" in row: extra["tag"] = row["tag"]
-        ctx = _dec_ctx(row["c"])
+        ctx = _wrap_ctx(_dec_ctx(row["c"]), env.get("schema", {}).get("cwrap"))
         acts = [_dec_action(a) for a in row["a"]] if "a" in row else None
         def rw(vals):
             if env["rwd"] == "list":     return list(vals)
@@ -325,18 +377,23 @@ def _mixed_order(base):
 
 def _plain_assembly(env, keep=()):
     """the same environment spec assembled the ordinary way (constructor key order, Interaction subclasses);
-    keep: the unusual features to retain ("mixed-key-order", "plain-dicts")"""
+    keep: the unusual features to retain ("mixed-key-order", "plain-dicts", "context-class:<class>")"""
     sc = dict(env.get("schema", {}))
     rows = env["rows"]
     if "mixed-key-order" not in keep:
         sc["korder"] = "same"; rows = [{k: v for k, v in r.items() if k != "ko"} for r in rows]
     if "plain-dicts" not in keep: sc["plain"] = False
+    if not any(k.startswith("context-class:") for k in keep): sc["cwrap"] = None
+    if "string-scalar-context" not in keep and _string_scalar(env):      # the same environment with numbers for scalars
+        sc["scalar_type"] = "int"; rows = [dict(r, c=len(r["c"])) for r in rows]
     return dict(env, schema=sc, rows=rows)
 
 def _assembly_features(env):
     t = []
     if any("ko" in r for r in env["rows"]): t.append("mixed-key-order")
     if env.get("schema", {}).get("plain"):  t.append("plain-dicts")
+    if env.get("schema", {}).get("cwrap") and env["rows"]: t.append("context-class:" + env["schema"]["cwrap"])
+    if _string_scalar(env): t.append("string-scalar-context")       # a string has a len(), a number has not
     return t
 
 def _attribute_assembly(envs, rerun):
@@ -372,7 +429,7 @@ def _assembly_sig(sig, tag, marker=""):
     return parts[0] + marker + f"/input={tag}/{mode}"
 
 def _special_assembly(env):
-    return bool(env.get("schema", {}).get("plain")) or any("ko" in r for r in env["rows"])
+    return bool(_assembly_features(env))
 
 # ===================================================================================== canonical content
 def _cv(v):
@@ -385,7 +442,13 @@ def _cv(v):
     if isinstance(v, list):  return ("L" if t is list else "L:" + t.__name__, tuple(_cv(x) for x in v))
     if isinstance(v, tuple): return ("T" if t is tuple else "T:" + t.__name__, tuple(_cv(x) for x in v))
     if isinstance(v, dict):  return ("D" if t is dict else "D:" + t.__name__, tuple(sorted((repr(k), _cv(x)) for k, x in v.items())))
+    if not _DS: from coba.primitives import Dense, Sparse; _DS.extend([Dense, Sparse])
+    try:                     # coba's own Dense / Sparse containers (lazily decoded reader rows, Hashable*, any Mapping)
+        if isinstance(v, _DS[1]): return ("D:" + t.__name__, tuple(sorted((repr(k), _cv(x)) for k, x in v.items())))
+        if isinstance(v, _DS[0]): return ("L:" + t.__name__, tuple(_cv(x) for x in v))
+    except Exception as e:   return ("o", t.__name__, "unreadable", type(e).__name__)
     return ("o", t.__name__, repr(v))
+_DS = []
 
 def canon(inter):
     """key-order- and dict-subclass-insensitive, value-type-strict canonical form of one interaction;
@@ -406,11 +469,11 @@ def _diff(a, b):
 
 # ===================================================================================== reference models (from the statement)
 def _nfeat(c):
-    """feature count of a JSON-encoded context; None = unspecified by the statement (string scalar)"""
+    """feature count of a JSON-encoded context: no context has no features, a dense / sparse context one per value, a
+    scalar context -- a number or a string ("a value (a single feature)", coba.primitives.Learner.predict) -- is one feature"""
     if c is None: return 0
     if isinstance(c, dict): return len(c["t"]) if "t" in c else len(c["s"])
     if isinstance(c, list): return len(c)
-    if isinstance(c, str): return None
     return 1
 
 def _bounds(arg):
@@ -510,13 +573,16 @@ def pclass(f, env, reason=""):
         return "/".join(f"{a}={_argform(f[a])}" for a in ("n_interactions", "n_actions", "n_features") if f[a] is not None)
     if name == "Cache":
         ns = f["n_slice"]
-        return f"n_slice={'1' if ns == 1 else '<len' if ns < N else '>=len'}/reads={f['reads']}"
+        return f"n_slice={'none' if ns is None else '1' if ns == 1 else '<len' if ns < N else '>=len'}/reads={f['reads']}"
     if name == "Chunk":     return ""
     if name == "BatchUnbatch":
         s = f["size"]
         sc = "none" if s is None else "0" if s == 0 else "1" if s == 1 else ">len" if s > N else "=len" if s == N else "divides" if N % s == 0 else "partial-last"
         return f"size={sc}" + ("" if env["rwd"] == "list" or env["kind"] == "log" else "/reward-functions")
     return ""
+
+def _string_scalar(env):
+    return env["ctx"] == "scalar" and any(isinstance(r["c"], str) for r in env["rows"])
 
 def _len_class(N):
     return "0" if N == 0 else "1" if N == 1 else "2" if N == 2 else "3-5" if N <= 5 else "6-15" if N <= 15 else "16-40" if N <= 40 else "41-60"
@@ -656,22 +722,59 @@ class _Chain:
         for f in self.fs: items = f.filter(items)
         return items
 
+class _SourceFailed(IOError):
+    """raised by the harness's own source (a transient read error of whatever feeds the filter)"""
+
+class _FailingSource:
+    """an iterable over `items` whose iteration raises _SourceFailed when item number `at` is asked for (once)"""
+    def __init__(self, items, at, kind): self.items, self.at, self.kind, self.failed = items, at, kind, False
+    def __iter__(self):
+        if self.kind == "generator": return self._gen()
+        return self
+    def _gen(self):
+        for i, x in enumerate(self.items):
+            if i == self.at and not self.failed: self.failed = True; raise _SourceFailed("source failed")
+            yield x
+        if self.at >= len(self.items) and not self.failed: self.failed = True; raise _SourceFailed("source failed")
+    _i = 0
+    def __next__(self):
+        i = self._i; self._i += 1
+        if i == self.at and not self.failed: self.failed = True; raise _SourceFailed("source failed")
+        if i >= len(self.items): raise StopIteration
+        return self.items[i]
+
 def _consume(f, runner, base, form):
-    """drives one filter / pipeline instance the way the case asks and returns the output of its last complete read"""
+    """drives one filter / pipeline instance the way the case asks and returns its complete reads (a list of outputs),
+    every one of which has to be what the statement promises for `base`"""
     if f["name"] == "Cache" and f["reads"] != "once":
         # one Cache instance, several reads: every complete read must be the identity
         if f["reads"] == "twice":
-            first = list(runner(base, form))
-            second = list(runner(base, form))
-            same = [o.get("_uid") if isinstance(o, dict) else None for o in first] == [o.get("_uid") if isinstance(o, dict) else None for o in second]
-            return second if same else first + second      # two different reads are judged together (-> dup/lost item)
+            return [list(runner(base, form)), list(runner(base, form))]
+        if f["reads"] == "interleaved":
+            its, outs, done = {}, {}, set()
+            def step(r):
+                if r not in its: its[r] = iter(runner(base, form)); outs[r] = []
+                try: outs[r].append(next(its[r]))
+                except StopIteration: done.add(r)
+            for r in f["schedule"]:
+                if r not in done: step(r)
+            for r in range(f["readers"]):
+                while r not in done: step(r)
+            return [outs[r] for r in range(f["readers"])]
+        if f["reads"] == "failed":
+            # the read during which the source fails is not judged (its input is not a finite sequence); the reads after
+            # it are given the intact sequence
+            try:
+                for _ in runner(_FailingSource(base, f["fail_at"], f["source"]), form): pass
+            except _SourceFailed: pass
+            return [list(runner(base, form)) for _ in range(f["after"])]
         it = iter(runner(base, form))
         for _ in range(f["k"]):
             try: next(it)
             except StopIteration: break
         if hasattr(it, "close"): it.close()
-        return list(runner(base, form))
-    return list(runner(base, form))
+        return [list(runner(base, form))]
+    return [list(runner(base, form))]
 
 # ===================================================================================== the checker
 def _judge(kind, U, k, got):
@@ -708,6 +811,8 @@ def check_case(spec, ctx=None):
     vias_run = set()
     def fail(via, mode, what, extra=""):
         p = pclass(f, env, reason_now[0]) if name in ("Where", "Sort") else pc
+        # what a Cache makes of several readers / of a source that failed does not hinge on the size of its slices
+        if name == "Cache" and f["reads"] in ("interleaved", "failed"): p = f"reads={f['reads']}"
         sig = f"{name}" + (f"/{p}" if p else "") + (f"/{extra}" if extra else "") + f"/mode={mode}"
         fails.setdefault(sig, {}).setdefault(via, what)
 
@@ -726,13 +831,15 @@ def check_case(spec, ctx=None):
         runner = None
         for rep in (("A", "A", "B") if seeded else ("A",)):     # seeded: same instance twice, then a fresh instance
             base = build_env(env)
-            if snap0[0] is None: snap0[0] = [canon(i) for i in base]      # a fresh build is a pure function of the spec
+            # a fresh build is a pure function of the spec; the snapshot is taken from a build of its own so that
+            # looking at the inputs does not load what they hold lazily before the filter sees them
+            if snap0[0] is None: snap0[0] = [canon(i) for i in build_env(env)]
             snap = snap0[0]
             ids  = [id(i) for i in base]
             by_uid = {i["_uid"]: c for i, c in zip(base, snap)}
             try:
                 if runner is None or rep == "B": runner = build()
-                got_items = _consume(f, runner, base, f["input"])
+                reads = _consume(f, runner, base, f["input"])
             except Exception as e:
                 fail(via, f"raise:{type(e).__name__}", f"{via}: {type(e).__name__}: {e}", _where_tag(reason))
                 break
@@ -740,6 +847,8 @@ def check_case(spec, ctx=None):
             mixed_order = _mixed_order(base)
             if mixed_order: note("input.key-order.mixed")
             if env.get("schema", {}).get("plain") and N: note("input.plain-dicts")
+            cwrap = env.get("schema", {}).get("cwrap") if N else None
+            if cwrap: note(f"input.context-class.{cwrap}")
             # ---- inputs untouched
             note("oracle.input-snapshot")
             after = {}                 # id(input object) -> its canonical form after the run
@@ -750,47 +859,56 @@ def check_case(spec, ctx=None):
                     c2 = after[id(x)] = canon(x)
                     if c2 != c:
                         fail(via, "input-interaction-mutated", f"{via}: input interaction #{i} changed in keys {_diff(c, c2)}"); break
-            # ---- outputs are input interactions with unchanged content
-            got, bad = [], False
-            for o in got_items:
-                if not isinstance(o, dict) or "_uid" not in o or o["_uid"] not in by_uid:
-                    fail(via, "foreign-item", f"{via}: output item is not an input interaction: {repr(o)[:200]}"); bad = True; break
-                got.append(o["_uid"])
-                if not getattr(runner, "finalized", False):
-                    note("oracle.content-preserved")
-                    co = after.get(id(o)) or canon(o)      # an output that IS an input object was canonicalised just above
-                    if co != by_uid[o["_uid"]]:
-                        fail(via, "content-altered", f"{via}: interaction _uid={o['_uid']} differs in keys {_diff(co, by_uid[o['_uid']])}: "
-                                                     f"{ {k: co.get(k) for k in _diff(co, by_uid[o['_uid']])} } vs input"); bad = True; break
-            if bad: break
-            # ---- the promised selection / order
-            note(f"oracle.{name}")
-            if mixed_order: note(f"oracle.{name}.mixed-key-order")
-            if name == "BatchUnbatch" and mixed_order and f["size"]: note("oracle.BatchUnbatch.batched.mixed-key-order")
-            if f.get("seedclass") in ("u0", "umax"): note("oracle.seed.adversarial")
-            if name == "Reservoir" and kind == "subset" and N > k:
-                note("oracle.Reservoir.algorithm-L-entered")
-                # reach monitor (never a violation): some sample must consist only of items that arrived after the
-                # reservoir was first filled, i.e. every initial member can be replaced.  A sampler that can never
-                # replace one of its slots still satisfies the statement, but leaves this counter at 0 -> INCONCLUSIVE.
-                if k >= 2 and got and not (set(got) & set(U[:k])): note("reach.Reservoir.all-initial-members-replaced")
-            if name == "Where":
-                note("oracle.Where.drop" if reason.startswith("drop") else "oracle.Where.pass" if reason.startswith("pass") else "oracle.Where.other")
-            if name == "Sort" and reason == "ties": note("oracle.Sort.ties")
-            if kind == "unspecified":
-                # the statement does not fix the feature count here: all-or-nothing is still promised
-                alo, ahi = _bounds(f["n_actions"])
-                keep = [r["u"] for r in env["rows"] if f["n_actions"] is None or _inside(len(r["a"]), alo, ahi)]
-                if got and got != keep: fail(via, "partial-drop", f"{via}: got {got}, neither nothing nor {keep}", _where_tag(reason))
-            else:
-                mode = _judge(kind, U, k, got)
-                if mode and name == "Where" and reason.startswith("pass"):
-                    env_level = f["n_interactions"] is not None or f["n_features"] is not None
-                    reason_now[0], mode = ("pass-but-dropped", "dropped-entirely") if not got and env_level else ("pass-wrong-selection", mode)
-                if mode:
-                    fail(via, mode, f"{via}: expected {kind} {('of size %d from ' % k) if kind == 'subset' else ''}{U}, got {got}" +
-                         (f" [{reason}]" if reason else ""), _where_tag(reason))
-                    break
+            stop = False
+            for ri, got_items in enumerate(reads):          # every complete read of the instance is judged
+                which = f" [read #{ri + 1} of {len(reads)}, reads={f.get('reads')}]" if len(reads) > 1 else ""
+                # ---- outputs are input interactions with unchanged content
+                got, bad = [], False
+                for o in got_items:
+                    if not isinstance(o, dict) or "_uid" not in o or o["_uid"] not in by_uid:
+                        fail(via, "foreign-item", f"{via}: output item is not an input interaction: {repr(o)[:200]}"); bad = True; break
+                    got.append(o["_uid"])
+                    if not getattr(runner, "finalized", False):
+                        note("oracle.content-preserved")
+                        co = after.get(id(o)) or canon(o)      # an output that IS an input object was canonicalised just above
+                        if co != by_uid[o["_uid"]]:
+                            fail(via, "content-altered", f"{via}: interaction _uid={o['_uid']} differs in keys {_diff(co, by_uid[o['_uid']])}: "
+                                                         f"{ {k: co.get(k) for k in _diff(co, by_uid[o['_uid']])} } vs input"); bad = True; break
+                if bad: stop = True; break
+                # ---- the promised selection / order
+                note(f"oracle.{name}")
+                if mixed_order: note(f"oracle.{name}.mixed-key-order")
+                if name == "BatchUnbatch" and mixed_order and f["size"]: note("oracle.BatchUnbatch.batched.mixed-key-order")
+                if f.get("seedclass") in ("u0", "umax"): note("oracle.seed.adversarial")
+                if name == "Reservoir" and kind == "subset" and N > k:
+                    note("oracle.Reservoir.algorithm-L-entered")
+                    # reach monitor (never a violation): some sample must consist only of items that arrived after the
+                    # reservoir was first filled, i.e. every initial member can be replaced.  A sampler that can never
+                    # replace one of its slots still satisfies the statement, but leaves this counter at 0 -> INCONCLUSIVE.
+                    if k >= 2 and got and not (set(got) & set(U[:k])): note("reach.Reservoir.all-initial-members-replaced")
+                if name == "Where":
+                    note("oracle.Where.drop" if reason.startswith("drop") else "oracle.Where.pass" if reason.startswith("pass") else "oracle.Where.other")
+                if name == "Sort" and reason == "ties": note("oracle.Sort.ties")
+                if name == "Sort" and cwrap and kind == "exact": note("oracle.Sort.context-class")
+                if name == "Where" and N and f["n_features"] is not None and reason != "n_features-not-uniform":
+                    if cwrap: note(f"oracle.Where.n_features.context-class.{cwrap}")
+                    if _string_scalar(env): note("oracle.Where.n_features.string-scalar")
+                if name == "Cache": note(f"oracle.Cache.reads.{f['reads']}")
+                if kind == "unspecified":
+                    # the statement does not fix the feature count here: all-or-nothing is still promised
+                    alo, ahi = _bounds(f["n_actions"])
+                    keep = [r["u"] for r in env["rows"] if f["n_actions"] is None or _inside(len(r["a"]), alo, ahi)]
+                    if got and got != keep: fail(via, "partial-drop", f"{via}: got {got}, neither nothing nor {keep}", _where_tag(reason))
+                else:
+                    mode = _judge(kind, U, k, got)
+                    if mode and name == "Where" and reason.startswith("pass"):
+                        env_level = f["n_interactions"] is not None or f["n_features"] is not None
+                        reason_now[0], mode = ("pass-but-dropped", "dropped-entirely") if not got and env_level else ("pass-wrong-selection", mode)
+                    if mode:
+                        fail(via, mode, f"{via}: expected {kind} {('of size %d from ' % k) if kind == 'subset' else ''}{U}, got {got}" +
+                             (f" [{reason}]" if reason else "") + which, _where_tag(reason))
+                        stop = True; break
+            if stop: break
             # ---- one seed, one answer
             if seeded:
                 prev = results.setdefault((_det_group(via), repr(seed)), got)
@@ -857,7 +975,7 @@ def check_collection(spec, ctx=None):
         fails.setdefault((j, pc, when, _where_tag(reason), mode), what)
 
     bases  = [build_env(e) for e in envs]
-    snaps  = [[canon(i) for i in b] for b in bases]
+    snaps  = [[canon(i) for i in build_env(e)] for e in envs]      # from builds of their own: nothing lazy is loaded in `bases`
     ids    = [[id(i) for i in b] for b in bases]
     by_uid = [{i["_uid"]: c for i, c in zip(b, sn)} for b, sn in zip(bases, snaps)]
     owner  = {u: j for j, d in enumerate(by_uid) for u in d}
